@@ -1,7 +1,10 @@
 #!/bin/sh
-# developer convenience: every thorough check in sequence (hours); prints verdict lines and wall time
+# developer convenience: every thorough check in sequence (hours); prints verdict lines and wall time.
+# `touch /verif/.build/stop_sweep` makes it stop before the next property.
 cd "$(dirname "$0")"
+rm -f .build/stop_sweep
 for p in ${*:-C03 C02 C16 C19 C18 C06 C04 C07 C09 C17 C01 C08 C10 C11 C12 C13 C14 C15 C20 C05}; do
+  [ -e .build/stop_sweep ] && { echo "-- stopped before $p"; break; }
   s=$(date +%s)
   ./check $p --tier thorough 2>&1 | grep -E "^(OK|VIOLATION|KNOWN-FINDING)" | cut -c1-200
   echo "-- $p took $(( $(date +%s) - s )) s"
